@@ -17,7 +17,7 @@ from ..prng import sub
 ID = "C19"
 PROBES = ['steps_that_changed_files']  # reach probes: counters that must be non-zero in a run (a zero is printed and recorded)
 LEVEL = "exploration"
-BUDGET = {"quick": 160, "thorough": 5000}
+BUDGET = {"quick": 160, "thorough": 3000}
 WALL = {"quick": 300, "thorough": 3400}
 TECHNIQUE = "deterministic simulation: the same durable state executed by three session executors (run_inline / run_pytest / real plugin) at every step of a seeded history; pairwise comparison"
 LEVEL_TEXT = ("seeded search over projects without externals (plain test_* functions, 1-2 files, raising and failing tests included) x category subsets x "
